@@ -175,16 +175,21 @@ func (p *Parser) Next() (GrammarType, []byte) {
 		p.state[len(p.state)-1] = ObjectValueState
 		return StringGrammar, p.r.Shift()[:n]
 	} else {
-		p.needComma = true
-		if state == ObjectValueState {
-			p.state[len(p.state)-1] = ObjectKeyState
-		}
+		gt := ErrorGrammar
 		if c == '"' && p.consumeStringToken() {
-			return StringGrammar, p.r.Shift()
+			gt = StringGrammar
 		} else if p.consumeNumberToken() {
-			return NumberGrammar, p.r.Shift()
+			gt = NumberGrammar
 		} else if p.consumeLiteralToken() {
-			return LiteralGrammar, p.r.Shift()
+			gt = LiteralGrammar
+		}
+		if gt != ErrorGrammar {
+			// only a value that was read changes the state: at the end of the input the parser stays where it is, so that every further call reports the end again
+			p.needComma = true
+			if state == ObjectValueState {
+				p.state[len(p.state)-1] = ObjectKeyState
+			}
+			return gt, p.r.Shift()
 		}
 		c := p.r.Peek(0) // pick up movement from consumeStringToken to detect NULL or EOF
 		if c == 0 && p.r.Err() == nil {
